@@ -20,7 +20,7 @@ type Bias struct {
 	LaneFocus bool // push most tasks to the pinned / one lane
 }
 
-var Points = []string{"Q1", "Q2", "Q3", "W1", "W2", "P1"}
+var Points = []string{"Q1", "Q2", "Q3", "W1", "W2", "P1", "P2"}
 
 func genTask(t *rapid.T, b Bias) TaskSpec {
 	k := rapid.SampledFrom(b.TaskKinds).Draw(t, "taskKind")
